@@ -268,6 +268,11 @@ SCALAR = {"float": (0.5, 4.0), "int": (1, 4)}
 INT_DT = ("int", "i8", "i4", ">i8")
 
 
+def digest(u64):
+    import hashlib
+    return hashlib.sha1(np.ascontiguousarray(u64).tobytes()).hexdigest()[:16]
+
+
 def _fam(rep):
     return "int" if rep["dt"] in INT_DT else "float"
 
